@@ -2,8 +2,10 @@
 
 Proof phase: Properties/C14.vo — on Model/Quota.v: for EVERY sequential RPC history count = |live docs|
 per tenant (hence never above the limit, never refused below it); on the interleaving model of the
-quota protocol: Insert/BulkInsert pairs exact in every schedule; witness schedules refuting every pair
-that involves Delete/BatchDelete (they do not take the per-tenant quota mutex).
+quota protocol: ANY two calls out of {Insert, BulkInsert, BulkLoadHnsw, Delete, BatchDelete} of one
+tenant keep |live| <= count <= limit at every instant and the count exact at quiescence, in every
+schedule (all five take the per-tenant quota mutex since /repo 3784711; the schedules on which the
+protocol before that commit drifted are kept as Examples on the old protocol).
 Tie: harness/p/c14 drives the REAL kyrodb_server binary (harness/p/srv):
   (i)  seeded sequential scripts at the boundary (limit 1..3, second tenant on the same local ids,
        duplicates, absent ids, rejected and engine-rejected items, bulk load, restarts, boundary probes);
@@ -11,26 +13,27 @@ Tie: harness/p/c14 drives the REAL kyrodb_server binary (harness/p/srv):
        by the direct oracles (usage == census size, census size <= limit, refusal => census size == limit);
   (ii) races: repetitions of two concurrent RPCs of one tenant on one id, a fresh tenant per repetition;
        after the pair the count is measured by filling up to RESOURCE_EXHAUSTED; drift = census - count.
-Known input class (classified on the specific pair, never by property id):
-  C14-delete-outside-quota-mutex   drift after a pair in which one call is Delete/BatchDelete
-Anything else (sequential oracle failure, drift in an Insert||Insert control pair) is a VIOLATION.
+A drift in ANY pair is a VIOLATION (the driver labels drifts of pairs with a Delete/BatchDelete
+`C14-delete-outside-quota-mutex`, the class repaired by 3784711; nothing is looked up in known findings).
 """
 import json
 import os
 import vlib
 
 THEOREMS = {"Properties.C14": ["C14_count_exact_seq", "C14_run_state", "C14_never_above_limit",
-                               "C14_never_refused_below_limit", "C14_pairs",
-                               "C14_overwrite_delete_refuted", "C14_bulk_insert_delete_refuted",
-                               "C14_bulk_load_overwrite_delete_refuted", "C14_bulk_load_new_delete_refuted",
-                               "C14_insert_new_delete_refuted", "C14_delete_batch_delete_refuted",
-                               "C14_nonvacuous_seq", "C14_nonvacuous_pairs"]}
+                               "C14_never_refused_below_limit", "C14_pairs", "C14_pairs_cover_all_calls",
+                               "C14_old_protocol_overwrite_delete_drift", "C14_old_protocol_bulk_insert_delete_drift",
+                               "C14_old_protocol_bulk_load_overwrite_delete_drift", "C14_old_protocol_bulk_load_new_delete_drift",
+                               "C14_old_protocol_insert_new_delete_drift", "C14_old_protocol_delete_batch_delete_drift",
+                               "C14_nonvacuous_seq", "C14_nonvacuous_pairs", "C14_nonvacuous_overwrite_delete"]}
 PINS = {"Properties.C14": {
     "_preamble": "From Coq Require Import List NArith Bool. From Kyro Require Import Model.Quota Proofs.QuotaProofs. Open Scope N_scope.",
     "C14_count_exact_seq": "forall (cfg : qcfg) (es : list qev) (t : N), let s := qfinal cfg es in t_count (tget s t) = len (t_live (tget s t)) /\\ NoDup (t_live (tget s t))",
     "C14_never_above_limit": "forall (cfg : qcfg) (es : list qev) (t : N), len (t_live (tget (qfinal cfg es) t)) <= q_limit cfg t",
     "C14_never_refused_below_limit": "forall (cfg : qcfg) (es : list qev) (t : N) (it : qitem), item_admissible it = true -> let ts := tget (qfinal cfg es) t in (snd (handle cfg t ts (QInsert it)) = QErrExhausted <-> (mem (qi_id it) (t_live ts) = false /\\ len (t_live ts) = q_limit cfg t))",
-    "C14_pairs": "forall (limit count : N) (live : list N) (a b : thr) (sched : list bool), NoDup live -> count = len live -> count <= limit -> fresh a -> fresh b -> let c := crun limit sched (cstart count live a b) in (final_live c <= final_count c /\\ final_count c <= final_live c + 2 /\\ final_count c <= limit /\\ NoDup (sh_live (c_sh c))) /\\ (quiescent c = true -> final_count c = final_live c /\\ sh_mutex (c_sh c) = None)",
+    "C14_pairs": "forall (limit count : N) (live : list N) (a b : thr) (sched : list bool), NoDup live -> count = len live -> count <= limit -> fresh a -> fresh b -> let c := crun limit sched (cstart count live a b) in (final_live c <= final_count c /\\ final_count c <= limit /\\ NoDup (sh_live (c_sh c))) /\\ (quiescent c = true -> final_count c = final_live c /\\ sh_mutex (c_sh c) = None)",
+    # `fresh` must keep covering all five call kinds of the CURRENT protocol
+    "C14_pairs_cover_all_calls": "forall id ok rest items ids, fresh (TI (istart id ok)) /\\ fresh (TBI (istart id ok) rest) /\\ fresh (TL (lstart items)) /\\ fresh (TD (dstart id)) /\\ fresh (TB (bstart ids))",
 }}
 KNOWN_ID = "C14-delete-outside-quota-mutex"
 
@@ -111,8 +114,7 @@ def run(ctx):
     allc = json.load(open(os.path.join(out, "all_cases.json")))
     bad, cases, events, coq_err = _coq(out, summ)
     races = _race_table(summ)
-    hits_known = [h for h in summ["race_hits"] if h.get("class") == KNOWN_ID]
-    hits_other = [h for h in summ["race_hits"] if h.get("class") != KNOWN_ID]
+    hits = summ["race_hits"]
     ctx.cov.update({
         "evaluations": summ["rpcs"] + summ["race_repetitions"],
         "distinct_nontrivial": summ["nontrivial"],
@@ -132,7 +134,7 @@ def run(ctx):
     })
     ctx.notes.append("race results are samples of the OS scheduler: send order and delay of the two RPCs are seeded (VERIF_SEED), the interleaving inside the server is not; the per-block hit rates in coverage.races are what was observed in THIS run")
     ctx.notes.append("observation (not judged): BulkLoadHnsw reserves one slot per distinct non-existing id of the batch BEFORE loading, including ids whose vector the engine then rejects, and refuses the whole call when that exceeds the free slots — a tenant with one free slot is refused a batch of one good and one bad new document")
-    ctx.notes.append("model-only: Insert(new id) || Delete(same id) drifts in the interleaving model when the delete lands between TieredEngine::insert's cold-tier insert and its coherence-token read (C14_insert_new_delete_refuted); that window is a few instructions wide and was not hit on the real binary unless coverage.races says otherwise")
+    ctx.notes.append("before /repo 3784711 (Delete/BatchDelete outside the quota mutex) the same race stage found 52 drifting repetitions of 674 on the real binary (overwrite||delete, bulk_insert||delete, bulk_load(overwrite)||delete, delete||batch_delete); the old protocol's witness schedules are kept as Examples C14_old_protocol_* in Properties/C14.v")
 
     # ---- decide
     if summ["run_errors"] and not summ["scripts_run"] and not summ["race_repetitions"]:
@@ -144,25 +146,15 @@ def run(ctx):
         ctx.violation({"property": "C14", "kind": "oracle", "why": f["why"], "event_index": f.get("event_index"),
                        "event": f.get("event"), "observed": f.get("observed"), "case": f["case"],
                        "replay_cmd": "./check C14 --replay <this file>"})
-    for h in hits_other[:1]:
-        ctx.violation(dict(h, property="C14", why="count drift after a pair of calls that both take the quota mutex",
-                           replay_cmd="./check C14 --replay <this file>  (re-runs this pair/variant for `repetitions` repetitions with the same seed; scheduling is not deterministic)"))
-    if summ["oracle_failures"] or hits_other:
+    if hits:
+        h = hits[0]
+        total = sum(x["hits_in_this_block"] for x in hits)
+        ctx.violation(dict(h, property="C14",
+                           why="after the two concurrent calls returned, the tenant's count differs from its number of live documents (%d drifting repetition(s) in %d block(s)); with the count short the tenant is admitted past max_vectors" % (total, len(hits)),
+                           blocks_with_drift=[{"pair": x["pair"], "variant": x["variant"], "hits": x["hits_in_this_block"], "repetitions": x["repetitions"]} for x in hits],
+                           replay_cmd="./check C14 --replay <this file>  (re-runs this pair/variant for `repetitions` repetitions with the same seed; scheduling is not deterministic, compare hit counts)"))
+    if summ["oracle_failures"] or hits:
         return
-    if hits_known:
-        total = sum(h["hits_in_this_block"] for h in hits_known)
-        reps_total = sum(r["repetitions"] for r in summ["races"] if not r["control"])
-        h = hits_known[0]
-        detail = "%d drifting repetition(s) of %d in %d block(s) this run; e.g. %s [%s] repetition %s: %s" % (
-            total, reps_total, len(hits_known), h["pair"], h["variant"], h["repetition"], json.dumps(h["observed"])[:300])
-        f = ctx.classify_known(KNOWN_ID)
-        if f:
-            ctx.known_hit(f, detail)
-        else:
-            ctx.violation(dict(h, property="C14",
-                               why="after the two concurrent calls returned, the tenant's count differs from its number of live documents (Delete/BatchDelete run outside the per-tenant quota mutex); with the count short the tenant is admitted past max_vectors",
-                               blocks_with_drift=[{"pair": x["pair"], "variant": x["variant"], "hits": x["hits_in_this_block"], "repetitions": x["repetitions"]} for x in hits_known],
-                               replay_cmd="./check C14 --replay <this file>  (re-runs this pair/variant for `repetitions` repetitions with the same seed; scheduling is not deterministic, compare hit counts)"))
     broken = []
     if not proofs_ok:
         broken.append({"kind": "proof-obligations", "failed": ctx.failed_obligations})
@@ -181,7 +173,7 @@ def run(ctx):
         found = []
         try:
             s2 = json.load(open(os.path.join(out2, "summary.json")))
-            found = s2["oracle_failures"] + [h for h in s2["race_hits"] if h.get("class") != KNOWN_ID]
+            found = s2["oracle_failures"] + s2["race_hits"]
         except Exception:
             pass
         if found:
